@@ -868,3 +868,25 @@ Proof.
   destruct (class_of b =? 3) eqn:E; [lia|].
   apply andb_prop in S. destruct S as [_ S]. rewrite forallb_forall in S. specialize (S _ Ht). lia.
 Qed.
+
+(* (3) dmin > dmax: MuJoCo C evaluates dmin + y(x) (dmax - dmin) unclamped (a decreasing impedance,
+   strictly above dmax inside the transition zone); the code's wp.clamp(imp, dmin, dmax) = min(max(imp,
+   dmin), dmax) returns dmax for every x *)
+Local Open Scope R_scope.
+Theorem efc_row_dmin_above_dmax_refuted :
+  forall dmin dmax width mid p r,
+    dmax < dmin -> 0 < mid < 1 -> 1 <= p -> 0 < Rabs r / width < 1 ->
+    imp_code dmin dmax width mid p r = dmax /\ dmax < imp_doc dmin dmax width mid p r.
+Proof.
+  intros dmin dmax width mid p r Hd Hm Hp Hx.
+  destruct (imp_y_bounds mid p (Rabs r / width) Hm Hp Hx) as [Y0 Y1].
+  assert (B : dmax < imp_doc dmin dmax width mid p r) by (unfold imp_doc; nra).
+  split; [|exact B].
+  unfold imp_code. cbv zeta. destruct (Rlt_dec 1 (Rabs r / width)); [lra|].
+  unfold clampR. apply Rmin_right.
+  apply Rle_trans with dmin; [lra|apply Rmax_r].
+Qed.
+
+Example efc_row_dmin_above_dmax_hyps_satisfiable :
+  5 / 10 < 95 / 100 /\ 0 < 1 / 2 < 1 /\ 1 <= 2 /\ 0 < Rabs (3 / 10) / (5 / 10) < 1.
+Proof. rewrite Rabs_pos_eq by lra. repeat split; lra. Qed.
